@@ -1,2 +1,3 @@
 import IbexModel.Dbl
 import IbexModel.Itv
+import IbexModel.Box
